@@ -89,7 +89,7 @@ Lemma floop_unfold : forall f s next start ad,
       let i := Z.to_nat next in
       let b := getb s i in
       if bav b && (bcur b >? 0) then
-        (setb s i (add_cur (-1)), move_next next n, ROk [bid b])
+        (setb (tick s) i (add_cur (-1)), move_next next n, ROk [bid b])
       else
         let s1 := tick s in
         let all_down' := if bav b && (bw b >? 0) then false else ad in
@@ -268,7 +268,7 @@ Qed.
 (* ---------- the wire-level statement: outside the finding classes the model satisfies prop_C05 ---------- *)
 Definition entry_ok (e : val * option (Z * res)) : Prop :=
   match e with
-  | (obs, Some (_, r)) => res_wf r /\ exists h st, obs = VL [VZ h; enc_res r; st]
+  | (obs, Some (_, r)) => res_wf r /\ exists h x st, obs = VL (VZ h :: enc_res r :: x :: st)
   | (obs, None) => obs_ok obs = true
   end.
 Lemma run_ops_entries : forall ops r hs l, run_ops r ops hs = Some l -> Forall entry_ok l.
@@ -282,7 +282,7 @@ Proof.
     { destruct o as [algo sc|id b|id d|conf]; simpl in Es.
       - pose proof (balance_wf algo (hd 0 hs) sc r) as Hwf.
         destruct (balance algo (hd 0 hs) sc r) as [r2 y]. inversion Es; subst. simpl.
-        split; [exact Hwf|]. eexists. eexists. reflexivity.
+        split; [exact Hwf|]. eexists. eexists. eexists. reflexivity.
       - inversion Es; subst. reflexivity.
       - inversion Es; subst. reflexivity.
       - inversion Es; subst. reflexivity. }
@@ -298,7 +298,7 @@ Proof.
   induction l as [|[obs x] l IH]; intros HF Hb; [reflexivity|].
   inversion HF as [|? ? He HF']; subst. simpl.
   destruct x as [[a y]|].
-  - destruct He as [Hwf [h [st ->]]].
+  - destruct He as [Hwf [h [x0 [st ->]]]].
     destruct y as [ids|c| |]; simpl in Hb.
     + rewrite (IH HF' Hb). destruct ids as [|x ids']; [exfalso; apply Hwf; reflexivity|reflexivity].
     + rewrite (IH HF' Hb). reflexivity.
@@ -306,17 +306,272 @@ Proof.
     + discriminate.
   - simpl in He. rewrite He. simpl in Hb. rewrite (IH HF' Hb). reflexivity.
 Qed.
+(* ---------- BalanceGslb.Balance: total for every cluster, retry count, hash and script ---------- *)
+Lemma sub_balance_returned : forall algo h sc r, returned (snd (fst (sub_balance algo h sc r))).
+Proof.
+  intros algo h sc r. unfold sub_balance. destruct (backends r) as [|b0 r0] eqn:E.
+  - right. eexists. reflexivity.
+  - rewrite <- E. destruct (algo =? 2).
+    + pose proof (sticky_total h (backends r, sc)) as H. destruct (sticky h _) as [s1 o]. exact H.
+    + destruct (algo =? 4).
+      * pose proof (wlc_smooth_total (backends r, sc)) as H. destruct (wlc_smooth _) as [s1 o]. exact H.
+      * pose proof (smooth_total (positions (backends r, sc)) (backends r, sc)) as H. destruct (smooth _ _) as [s1 o]. exact H.
+Qed.
+Definition gres (x : gcluster * res * Z * Z) : res := snd (fst (fst x)).
+Theorem gslb_total : forall algo h retry sc c, returned (gres (gslb_balance algo h retry sc c)).
+Proof.
+  intros algo h retry sc c. unfold gslb_balance, gres.
+  destruct (retry >? grmax c + gcross c); [right; eexists; reflexivity|].
+  destruct (gchoose c h) as [k|]; [|right; eexists; reflexivity].
+  destruct (retry <=? grmax c) eqn:Ea.
+  - pose proof (sub_balance_returned algo h sc (gbrr (gnth (gsubs c) k))) as H1.
+    destruct (sub_balance algo h sc (gbrr (gnth (gsubs c) k))) as [[r' o] sc'] eqn:E1. simpl in H1.
+    cbn [andb]. destruct (is_ok o) eqn:Eo; [exact H1|].
+    destruct (gcross c <=? 0); [right; eexists; reflexivity|].
+    match goal with |- context [filter ?f ?l] => destruct (filter f l) as [|j [|j2 cs]] end;
+      try (right; eexists; reflexivity).
+    match goal with |- context [sub_balance algo h sc' ?r] =>
+      pose proof (sub_balance_returned algo h sc' r) as H2; destruct (sub_balance algo h sc' r) as [[r2 o2] sc2] end.
+    simpl in H2. destruct (is_ok o2); [exact H2|right; eexists; reflexivity].
+  - cbn [andb]. destruct (gcross c <=? 0); [right; eexists; reflexivity|].
+    match goal with |- context [filter ?f ?l] => destruct (filter f l) as [|j [|j2 cs]] end;
+      try (right; eexists; reflexivity).
+    match goal with |- context [sub_balance algo h sc ?r] =>
+      pose proof (sub_balance_returned algo h sc r) as H2; destruct (sub_balance algo h sc r) as [[r2 o2] sc2] end.
+    simpl in H2. destruct (is_ok o2); [exact H2|right; eexists; reflexivity].
+Qed.
+
+Lemma run_gops_entries : forall ops c hs l, run_gops c ops hs = Some l -> Forall entry_ok l.
+Proof.
+  induction ops as [|v rest IH]; intros c hs l H; simpl in H.
+  - inversion H. constructor.
+  - destruct (dec_gop v) as [o|]; [|discriminate].
+    destruct (gstep c o _) as [[c' obs] x] eqn:Es.
+    destruct (run_gops c' rest _) as [l'|] eqn:E; [|discriminate]. inversion H; subst.
+    constructor; [|eapply IH; exact E].
+    destruct o as [algo retry sc|id b|id d]; simpl in Es.
+    + pose proof (gslb_total algo (hd 0 hs) retry sc c) as Hr. unfold gres in Hr.
+      destruct (gslb_balance algo (hd 0 hs) retry sc c) as [[[c2 y] sub] rt]. simpl in Hr. inversion Es; subst. simpl.
+      split; [apply returned_wf; exact Hr|]. eexists. eexists. eexists. reflexivity.
+    + inversion Es; subst. reflexivity.
+    + inversion Es; subst. reflexivity.
+Qed.
+
 Theorem model_satisfies_prop : forall i, kf_C05 i = 0 -> prop_C05 i (run_C05 i) = true.
 Proof.
   intros i Hk. unfold kf_C05 in Hk. unfold run_C05, prop_C05.
   destruct (run_with i []) as [l|] eqn:E; [|reflexivity].
   apply first_bad_ok; [|exact Hk].
   unfold run_with in E.
-  destruct i as [z|b|[|c [|[z|b|ops] [|? ?]]]]; try discriminate.
-  destruct (dec_conf c) as [conf|]; [|discriminate].
-  destruct (distinct (map fst conf)); [|discriminate].
-  eapply run_ops_entries. exact E.
+  repeat match type of E with
+  | match ?x with _ => _ end = _ => destruct x eqn:?; try discriminate
+  | (if ?x then _ else _) = _ => destruct x eqn:?; try discriminate
+  end;
+  first [eapply run_ops_entries; exact E | eapply run_gops_entries; exact E].
 Qed.
+
+
+(* ---------- brr.next stays in range, lists keep their length: no wire input reaches RPanic / RFuel ---------- *)
+Lemma tick_len : forall s, length (fst (tick s)) = length (fst s).
+Proof. intros [bs [|fs sc]]; simpl; [reflexivity|apply apply_flips_len]. Qed.
+Lemma setb_len : forall s i f, length (fst (setb s i f)) = length (fst s).
+Proof.
+  intros [bs sc] i f. unfold setb. cbn [fst]. revert i. induction bs as [|b r IH]; intros i; [reflexivity|].
+  destruct i; simpl; [reflexivity|]. f_equal. apply IH.
+Qed.
+Lemma reset_len : forall s, length (fst (reset_cur s)) = length (fst s).
+Proof. intros s. unfold reset_cur. cbn [fst]. apply map_length. Qed.
+Lemma ins_be_len : forall b l, length (ins_be b l) = S (length l).
+Proof. intros b. induction l as [|x r IH]; simpl; [reflexivity|]. destruct (bid b <? bid x); simpl; [reflexivity|]. rewrite IH. reflexivity. Qed.
+Lemma sort_be_len : forall l, length (sort_be l) = length l.
+Proof. unfold sort_be. induction l as [|x r IH]; simpl; [reflexivity|]. rewrite ins_be_len, IH. reflexivity. Qed.
+
+Lemma smooth_scan_len : forall idx s best mx total,
+  length (fst (fst (fst (smooth_scan idx s best mx total)))) = length (fst s).
+Proof.
+  induction idx as [|i r IH]; intros s best mx total; simpl; [reflexivity|].
+  destruct (negb (eligible (getb s i))).
+  - rewrite IH. apply tick_len.
+  - rewrite IH, setb_len. apply tick_len.
+Qed.
+Lemma smooth_len : forall idx s, length (fst (fst (smooth idx s))) = length (fst s).
+Proof.
+  intros idx s. unfold smooth. pose proof (smooth_scan_len idx s None 0 0) as H.
+  destruct (smooth_scan idx s None 0 0) as [[s1 best] total]. simpl in H.
+  destruct best as [i|]; [|exact H].
+  change (length (fst (setb s1 i (add_cur (- total)))) = length (fst s)). rewrite setb_len. exact H.
+Qed.
+Lemma comp_read_len : forall s j i, length (fst (fst (comp_read s j i))) = length (fst s).
+Proof. intros. unfold comp_read. simpl. rewrite !tick_len. reflexivity. Qed.
+Lemma lc_pass1_len : forall idx s best single,
+  length (fst (fst (fst (lc_pass1 idx s best single)))) = length (fst s).
+Proof.
+  induction idx as [|i r IH]; intros s best single; simpl; [reflexivity|].
+  destruct (negb (eligible (getb s i))); [rewrite IH; apply tick_len|].
+  destruct best as [j|]; [|rewrite IH; apply tick_len].
+  destruct (_ >? 0); [rewrite IH, !tick_len; reflexivity|].
+  destruct (_ =? 0); rewrite IH, !tick_len; reflexivity.
+Qed.
+Lemma lc_pass2_len : forall idx s j acc, length (fst (fst (lc_pass2 idx s j acc))) = length (fst s).
+Proof.
+  induction idx as [|i r IH]; intros s j acc; simpl; [reflexivity|].
+  destruct (negb (eligible (getb s i))); [rewrite IH; apply tick_len|].
+  destruct (_ =? 0); rewrite IH, !tick_len; reflexivity.
+Qed.
+Lemma least_conns_len : forall s, length (fst (fst (least_conns s))) = length (fst s).
+Proof.
+  intros s. unfold least_conns. pose proof (lc_pass1_len (positions s) s None true) as H1.
+  destruct (lc_pass1 (positions s) s None true) as [[s1 best] single]. simpl in H1.
+  destruct best as [j|]; [|exact H1]. destruct single; [exact H1|].
+  pose proof (lc_pass2_len (positions s1) s1 j []) as H2. destruct (lc_pass2 (positions s1) s1 j []) as [s2 c].
+  simpl in *. congruence.
+Qed.
+Lemma wlc_smooth_len : forall s, length (fst (fst (wlc_smooth s))) = length (fst s).
+Proof.
+  intros s. unfold wlc_smooth. pose proof (least_conns_len s) as H. destruct (least_conns s) as [s1 oc]. simpl in H.
+  destruct oc as [[|j [|k c]]|]; try exact H; rewrite smooth_len; exact H.
+Qed.
+Lemma wlc_simple_len : forall s, length (fst (fst (wlc_simple s))) = length (fst s).
+Proof.
+  intros s. unfold wlc_simple. pose proof (least_conns_len s) as H. destruct (least_conns s) as [s1 oc]. simpl in H.
+  destruct oc as [[|j [|k c]]|]; exact H.
+Qed.
+Lemma sticky_scan_len : forall idx s acc total,
+  length (fst (fst (fst (sticky_scan idx s acc total)))) = length (fst s).
+Proof.
+  induction idx as [|i r IH]; intros s acc total; simpl; [reflexivity|].
+  destruct (eligible (getb s i)); rewrite IH; apply tick_len.
+Qed.
+Lemma sticky_len : forall h s, length (fst (fst (sticky h s))) = length (fst s).
+Proof.
+  intros h s. unfold sticky.
+  pose proof (sticky_scan_len (positions (sort_be (fst s), snd s)) (sort_be (fst s), snd s) [] 0) as H.
+  destruct (sticky_scan _ _ [] 0) as [[s1 c] total]. simpl in H. rewrite sort_be_len in H.
+  destruct c; [exact H|]. destruct (total =? 0); exact H.
+Qed.
+
+Lemma simple_loop_inv : forall fuel s next start ad,
+  0 <= next < Z.of_nat (length (fst s)) -> 0 <= start < Z.of_nat (length (fst s)) ->
+  let '(s1, nx, _) := simple_loop fuel s next start ad in
+  length (fst s1) = length (fst s) /\ 0 <= nx < Z.of_nat (length (fst s)).
+Proof.
+  induction fuel as [|f IH]; intros s next start ad Hn Hs; [simpl; split; [reflexivity|exact Hs]|].
+  rewrite floop_unfold. cbv zeta. rewrite in_range_false' by exact Hn.
+  destruct (bav (getb s (Z.to_nat next)) && (bcur (getb s (Z.to_nat next)) >? 0)).
+  - split; [rewrite setb_len; apply tick_len|apply move_next_range; exact Hn].
+  - destruct (move_next next (Z.of_nat (length (fst s))) =? start).
+    + destruct (if bav (getb s (Z.to_nat next)) && (bw (getb s (Z.to_nat next)) >? 0) then false else ad).
+      * split; [apply tick_len|exact Hs].
+      * pose proof (IH (reset_cur (tick s)) 0 0 true) as H. rewrite reset_len, tick_len in H.
+        destruct (simple_loop f (reset_cur (tick s)) 0 0 true) as [[s1 nx] o]. apply H; lia.
+    + pose proof (IH (tick s) (move_next next (Z.of_nat (length (fst s)))) start
+                     (if bav (getb s (Z.to_nat next)) && (bw (getb s (Z.to_nat next)) >? 0) then false else ad)) as H.
+      rewrite tick_len in H.
+      destruct (simple_loop f (tick s) _ start _) as [[s1 nx] o]. apply H; [apply move_next_range; exact Hn|exact Hs].
+Qed.
+
+Definition brr_ok (r : brr) : Prop := backends r = [] \/ 0 <= nxt r < Z.of_nat (length (backends r)).
+Definition good_res (x : res) : Prop := x <> RPanic /\ x <> RFuel.
+Lemma returned_good : forall x, returned x -> good_res x.
+Proof. intros x [[ids [-> _]]|[c ->]]; split; discriminate. Qed.
+Lemma is_returned_good : forall x, is_returned x = true -> good_res x.
+Proof. intros [[|a l]|c| |] H; try discriminate; split; discriminate. Qed.
+
+Lemma balance_ok : forall algo h sc r, brr_ok r ->
+  brr_ok (fst (balance algo h sc r)) /\ good_res (snd (balance algo h sc r)).
+Proof.
+  intros algo h sc r Hok. unfold balance.
+  destruct (algo =? 0).
+  - unfold simple. cbn [fst]. destruct (backends r) as [|b0 r0] eqn:Eb.
+    + simpl. split; [left; reflexivity|split; discriminate].
+    + rewrite <- Eb. destruct Hok as [Hok|Hok]; [congruence|].
+      pose proof (simple_loop_inv (simple_fuel (backends r, sc)) (backends r, sc) (nxt r) (nxt r) true Hok Hok) as Hi.
+      pose proof (scripted_returns sc (backends r) (nxt r) (nxt r) true (simple_fuel (backends r, sc)) Hok Hok) as Ht.
+      unfold simple_fuel in Ht at 1. cbn [fst snd] in Ht. specialize (Ht (le_n _)).
+      destruct (simple_loop _ _ _ _ _) as [[s1 nx] o]. cbn [fst snd] in *. destruct Hi as [Hl Hx].
+      split; [right; simpl; rewrite Hl; exact Hx|apply is_returned_good; exact Ht].
+  - assert (Hkeep : forall s1 : dyn, length (fst s1) = length (backends r) -> brr_ok (mkBrr (fst s1) (nxt r))).
+    { intros s1 Hl. destruct Hok as [Hok|Hok].
+      - left. simpl. rewrite Hok in Hl. destruct (fst s1); [reflexivity|discriminate].
+      - right. simpl. rewrite Hl. exact Hok. }
+    destruct (algo =? 2).
+    + pose proof (sticky_total h (backends r, sc)) as H. pose proof (sticky_len h (backends r, sc)) as Hl.
+      destruct (sticky h _) as [s1 o]. simpl in *. split; [apply Hkeep; exact Hl|apply returned_good; exact H].
+    + destruct (algo =? 3).
+      * pose proof (wlc_simple_total (backends r, sc)) as H. pose proof (wlc_simple_len (backends r, sc)) as Hl.
+        destruct (wlc_simple _) as [s1 o]. simpl in *. split; [apply Hkeep; exact Hl|apply returned_good; exact H].
+      * destruct (algo =? 4).
+        -- pose proof (wlc_smooth_total (backends r, sc)) as H. pose proof (wlc_smooth_len (backends r, sc)) as Hl.
+           destruct (wlc_smooth _) as [s1 o]. simpl in *. split; [apply Hkeep; exact Hl|apply returned_good; exact H].
+        -- pose proof (smooth_total (positions (backends r, sc)) (backends r, sc)) as H.
+           pose proof (smooth_len (positions (backends r, sc)) (backends r, sc)) as Hl.
+           destruct (smooth _ _) as [s1 o]. simpl in *. split; [apply Hkeep; exact Hl|apply returned_good; exact H].
+Qed.
+
+Lemma set_dyn_ok : forall id f r, brr_ok r -> brr_ok (set_dyn id f r).
+Proof.
+  intros id f r [H|H]; unfold set_dyn, brr_ok; simpl.
+  - left. rewrite H. reflexivity.
+  - right. rewrite map_length. exact H.
+Qed.
+Lemma update_ok : forall conf r, brr_ok (update conf r).
+Proof.
+  intros conf r. unfold update, brr_ok. simpl. destruct (update_kept conf (backends r) ++ _) as [|b l]; [left; reflexivity|].
+  right. simpl. lia.
+Qed.
+Lemma init_ok : forall conf, brr_ok (init conf).
+Proof.
+  intros conf. unfold init, brr_ok. simpl. destruct conf as [|p l]; [left; reflexivity|]. right. simpl. lia.
+Qed.
+
+Lemma run_ops_good : forall ops r hs l, brr_ok r -> run_ops r ops hs = Some l -> first_bad l = 0.
+Proof.
+  induction ops as [|v rest IH]; intros r hs l Hok H; simpl in H.
+  - inversion H. reflexivity.
+  - destruct (dec_op v) as [o|]; [|discriminate].
+    destruct (negb (wf_op r o)); [discriminate|].
+    destruct (step r o _) as [[r' obs] x] eqn:Es.
+    assert (Hstep : brr_ok r' /\ match x with Some (_, y) => good_res y | None => True end).
+    { destruct o as [algo sc|id b|id d|conf]; simpl in Es.
+      - pose proof (balance_ok algo (hd 0 hs) sc r Hok) as [H1 H2].
+        destruct (balance algo (hd 0 hs) sc r) as [r2 y]. inversion Es; subst. split; assumption.
+      - inversion Es; subst. split; [apply set_dyn_ok; exact Hok|exact I].
+      - inversion Es; subst. split; [apply set_dyn_ok; exact Hok|exact I].
+      - inversion Es; subst. split; [apply update_ok|exact I]. }
+    destruct Hstep as [Hok' Hg].
+    destruct x as [[a y]|].
+    + destruct Hg as [Hp Hf].
+      destruct y; try congruence;
+        (destruct (run_ops r' rest _) as [l'|] eqn:E; [|discriminate]; inversion H; subst; simpl; eapply IH; eassumption).
+    + destruct (run_ops r' rest _) as [l'|] eqn:E; [|discriminate]. inversion H; subst. simpl. eapply IH; eassumption.
+Qed.
+Lemma run_gops_good : forall ops c hs l, run_gops c ops hs = Some l -> first_bad l = 0.
+Proof.
+  induction ops as [|v rest IH]; intros c hs l H; simpl in H.
+  - inversion H. reflexivity.
+  - destruct (dec_gop v) as [o|]; [|discriminate].
+    destruct (gstep c o _) as [[c' obs] x] eqn:Es.
+    destruct (run_gops c' rest _) as [l'|] eqn:E; [|discriminate]. inversion H; subst.
+    destruct o as [algo retry sc|id b|id d]; simpl in Es.
+    + pose proof (gslb_total algo (hd 0 hs) retry sc c) as Hr. unfold gres in Hr.
+      destruct (gslb_balance algo (hd 0 hs) retry sc c) as [[[c2 y] sub] rt]. simpl in Hr. inversion Es; subst.
+      apply returned_good in Hr. destruct Hr as [Hp Hf]. simpl.
+      destruct y; try congruence; eapply IH; exact E.
+    + inversion Es; subst. simpl. eapply IH; exact E.
+    + inversion Es; subst. simpl. eapply IH; exact E.
+Qed.
+Theorem kf_zero : forall i, kf_C05 i = 0.
+Proof.
+  intros i. unfold kf_C05. destruct (run_with i []) as [l|] eqn:E; [|reflexivity].
+  unfold run_with in E.
+  repeat match type of E with
+  | match ?x with _ => _ end = _ => destruct x eqn:?; try discriminate
+  | (if ?x then _ else _) = _ => destruct x eqn:?; try discriminate
+  end;
+  first [eapply run_ops_good; [apply init_ok|exact E] | eapply run_gops_good; exact E].
+Qed.
+Theorem model_satisfies_prop_all : forall i, prop_C05 i (run_C05 i) = true.
+Proof. intros i. apply model_satisfies_prop. apply kf_zero. Qed.
 
 (* non-vacuity examples *)
 Lemma ex_smooth_flip :
@@ -328,3 +583,12 @@ Lemma ex_wire :
                VL [VL [VZ 2; VZ 2; VZ 0]; VL [VZ 1; VZ 0; VB []; VL [VL [VL [VZ 1; VZ 0; VZ 0]]]]; VL [VZ 1; VZ 1; VB []; VL []]]] in
   kf_C05 i = 0 /\ run_C05 i <> VErr 0.
 Proof. split; vm_compute; [reflexivity|discriminate]. Qed.
+(* a gslb case: sub-cluster 0 (weight 1, backend 1) and 1 (weight 0, backend 2); backend 1 goes down after its first
+   read; in-cluster selection already returned it *)
+Lemma ex_wire_gslb :
+  let i := VL [VL [VZ 7; VL [VL [VZ 0; VZ 1; VL [VL [VZ 1; VZ 1]]]; VL [VZ 1; VZ 0; VL [VL [VZ 2; VZ 1]]]]; VZ 1; VZ 1];
+               VL [VL [VZ 6; VZ 1; VZ 0; VB [1]; VL [VL [VL [VZ 1; VZ 0; VZ 0]]]];
+                   VL [VZ 6; VZ 1; VZ 0; VB [1]; VL []]]] in
+  run_C05 i = VL [VL [VZ 0; VL [VZ 0; VZ 1]; VZ 0; VZ 0; VL [VL [VL [VL [VZ 1; VZ 100; VZ 100]]; VZ 0]; VL [VL [VL [VZ 2; VZ 100; VZ 100]]; VZ 0]]];
+                  VL [VZ 0; VL [VZ 0; VZ 2]; VZ 1; VZ 1; VL [VL [VL [VL [VZ 1; VZ 100; VZ 100]]; VZ 0]; VL [VL [VL [VZ 2; VZ 100; VZ 100]]; VZ 0]]]].
+Proof. vm_compute. reflexivity. Qed.
